@@ -259,6 +259,28 @@ class C11(common.Prop):
             self.F = translate_c11.facts()
         except Exception:
             self.F = translate_c11.facts(strict=False)      # the broken tie is reported by translate(); keep searching
+        self.warm_up()
+
+    def warm_up(self):
+        """process history: before the first case every name-based utility has already been used once, on an ATYPICAL pose (a
+        holistic pose whose legs were removed, an OpenPose pose, a reduced pose) - whatever such a call leaves behind in the
+        module must not change what later calls return"""
+        import random
+        rng = random.Random(11)
+        g = self.impl.generic
+        for fmt in ("holistic", "openpose"):
+            try:
+                comps, D = (self.holistic_comps(rng, small_face=True), 3) if fmt == "holistic" else (self.openpose_comps(), 2)
+                pose = self.impl.build(make_pose_desc(rng, comps, 1, 1, D), "np")
+            except Exception:
+                continue
+            for seq in (("hide_remove", "reduce", "wrists"), ("reduce", "hide_remove"), ("hide", "wrists", "reduce")):
+                p = pose
+                for op in seq:
+                    try:
+                        p = self.call(p, {"op": op})
+                    except Exception:
+                        break
 
     # ---------------------------------------------------------------- generators
     def gen_comp(self, rng, name, npts, dup):
